@@ -27,6 +27,7 @@ import (
 func verifC18DecodeAll(d *zstd.Decoder, input, dst []byte) ([]byte, error) {
 	return append(dst, input...), nil
 }
+
 // the real pools hand back the first free buffer (recycled memory, not zeroed)
 var verifC18Free [][]byte
 
@@ -87,7 +88,7 @@ func VerifC18SegReaderDamagedBlock() {
 			pos = base + 12 + zz.Choice("payloadByte", plen)
 		} else {
 			pos = base + zz.Choice("headerByte", 9) // magic, checksum, low length byte
-			zz.Assume(pos >= 4)                    // first-chunk magic: legacy fallback, recorded separately
+			zz.Assume(pos >= 4)                     // first-chunk magic: legacy fallback, recorded separately
 		}
 		old := make([]byte, 1)
 		_, err := fd.ReadAt(old, int64(pos))
